@@ -175,7 +175,7 @@ def run(tier, seed):
                                     theorem=pg['theorems'], problems=pg['problems']), False))
     ncases = 24 if tier == 'quick' else 400
     cases = [seed * 100000 + 4000 + i for i in range(ncases)]
-    for r in core.run_cases(run_case, cases):
+    for r in core.run_cases(run_case, core.with_corpus(PID, cases)):
         rep.merge(r)
     rep.obligation('correspondence: Taste.taste_good = bool(Taster) on every corrupted image (default options)',
                    not any(v[0].get('kind') == 'model-vs-impl' for v in rep.violations))
